@@ -129,3 +129,8 @@ def c_update_psd(ctx, it, cfg):
         forall(ctx, 'phase%d/stored-distribution-is-the-state-with-classes-below-one-removed' % p, 0, pbm.bins,
                lambda i, p=p, pbm=pbm, rdf=rdf: eq(pbm.PSD.get(i), ite(or_(le(i, rdf), lt(pbm.PSDsize.get(i), minR), lt(old[p](i), 1)), 0, old[p](i))))
         forall(ctx, 'phase%d/population-is-zero-or-at-least-one' % p, 0, pbm.bins, lambda i, pbm=pbm: or_(eq(pbm.PSD.get(i), 0), ge(pbm.PSD.get(i), 1)))
+
+
+# the stored distribution and the grid it refers to stay aligned when the grid is extended during a step (bounded stand-in shared with C08)
+from . import c08 as _c08
+REG.contracts.append(_c08.c_add_history.contract)
